@@ -368,7 +368,7 @@ fn c07(quick: bool) -> Vec<Harness> {
             cfg.costs.outcome = 1;
             cfg.max_ops = 1;
             cfg.report = vec!["C07"];
-            v.push(ops_harness(&format!("{k:?}-sq{sq}"), "C07", cfg, bounds(d(8, 10), d(2, 3), 4)));
+            v.push(ops_harness(&format!("{k:?}-sq{sq}"), "C07", cfg, bounds(d(8, 13), d(2, 4), 4)));
         }
     }
     // Queue full at the moment the descriptor is dropped: a second operation occupies the only slot.
@@ -381,7 +381,7 @@ fn c07(quick: bool) -> Vec<Harness> {
         cfg.errors = false;
         cfg.allow_cancel_lose = false;
         cfg.report = vec!["C07"];
-        v.push(ops_harness(&format!("{a:?}+ReadVec-sq1-full"), "C07", cfg, bounds(d(9, 10), d(2, 3), 4)));
+        v.push(ops_harness(&format!("{a:?}+ReadVec-sq1-full"), "C07", cfg, bounds(d(9, 13), d(2, 4), 4)));
     }
     // The listening descriptor itself is direct: what it accepts must be direct too.
     for k in [Accept, AcceptNoAddr, MultishotAccept, ToFd] {
@@ -396,7 +396,7 @@ fn c07(quick: bool) -> Vec<Harness> {
             cfg.costs.outcome = 1;
             cfg.max_ops = 1;
             cfg.report = vec!["C07"];
-            v.push(ops_harness(&format!("{k:?}-on-direct-sq{sq}"), "C07", cfg, bounds(d(8, 10), d(2, 3), 4)));
+            v.push(ops_harness(&format!("{k:?}-on-direct-sq{sq}"), "C07", cfg, bounds(d(8, 13), d(2, 4), 4)));
         }
     }
     for (a, b) in [(OpenFile, OpenDirect), (MultishotAccept, Socket), (Pipe, ToDirect)] {
@@ -406,7 +406,7 @@ fn c07(quick: bool) -> Vec<Harness> {
         cfg.held_letters = true;
         cfg.faults = false;
         cfg.report = vec!["C07"];
-        v.push(ops_harness(&format!("{a:?}+{b:?}"), "C07", cfg, bounds(d(8, 10), d(2, 3), 4)));
+        v.push(ops_harness(&format!("{a:?}+{b:?}"), "C07", cfg, bounds(d(8, 13), d(2, 4), 4)));
     }
     v
 }
@@ -488,7 +488,7 @@ fn c10(quick: bool) -> Vec<Harness> {
         let n = cases.len();
         let cases = std::rc::Rc::new(cases);
         let (c1, c2) = (cases.clone(), cases.clone());
-        let b = Bounds { depth: 12, dev: 0, d_all: 12, merge: false, shard: (0, 1), cap_s: 0, shard_depth: 1 };
+        let b = Bounds { depth: 16, dev: 0, d_all: 16, merge: false, shard: (0, 1), cap_s: 0, shard_depth: 1 };
         v.push(Harness {
             name: name.to_string(),
             describe: json!({"engine": "seqx", "world": "C10World", "cases": n, "answers": "every sequence of accepted/delivered byte counts 0..remaining for each request", "sample_case": format!("{:?}", cases[cases.len() / 2])}),
@@ -652,10 +652,33 @@ fn c09(quick: bool) -> Vec<Harness> {
             cfg.direct_table = Some(4);
         }
         cfg.report = vec!["C09"];
-        v.push(ops_harness(&format!("{k:?}"), "C09", cfg.clone(), bounds(d(8, 10), d(1, 2), 4)));
+        if !quick {
+            cfg.max_items = 3;
+        }
+        v.push(ops_harness(&format!("{k:?}"), "C09", cfg.clone(), bounds(d(8, 16), d(1, 4), 4)));
         if k.class() == crate::ops::Class::TwoStep {
             cfg.zc_error_notif = false;
-            v.push(ops_harness(&format!("{k:?}-error-without-notif"), "C09", cfg, bounds(d(8, 10), d(1, 2), 4)));
+            v.push(ops_harness(&format!("{k:?}-error-without-notif"), "C09", cfg, bounds(d(8, 16), d(1, 4), 4)));
+        }
+    }
+    if !quick {
+        // Two operations interrupted independently (their restarts interleave).
+        for (a, b) in [(ReadVec, SendZc), (MultishotRead, ReadVec), (RecvFrom, WriteVectored2), (SendVectoredZc, Accept), (ReceiveSignals, ReadPool), (OpenDirect, MultishotAccept)] {
+            let mut cfg = Cfg::base("C09");
+            cfg.sq = 2;
+            cfg.preset = vec![a, b];
+            cfg.kinds = vec![];
+            cfg.max_ops = 2;
+            cfg.faults = true;
+            cfg.errors = false;
+            cfg.shorts = false;
+            cfg.allow_fresh = false;
+            cfg.costs.outcome = 0;
+            cfg.costs.spurious_poll = 1;
+            cfg.max_items = 2;
+            cfg.direct_table = Some(4);
+            cfg.report = vec!["C09"];
+            v.push(ops_harness(&format!("{a:?}+{b:?}"), "C09", cfg, bounds(14, 3, 4)));
         }
     }
     v
